@@ -44,6 +44,28 @@ Failed(t) ==
         AllRet == UNION {{<<x, y>> : y \in DOMAIN calls[x].ret} : x \in DOMAIN calls}
         OnceOverall(p) == Cardinality({z \in AllRet : UPair(calls[z[1]].ret[z[2]]) = p}) = 1
         clauses == IF Which = "C01" THEN C01Clauses ELSE C02Clauses
+        (* C02, fast path: rows in call order, one block per call (what every known implementation produces).  Orientation of
+           an undirected edge is not part of the property (C04: "up to edge order and orientation"). *)
+        fastBlocks == \A cc \in DOMAIN calls : \A i \in DOMAIN calls[cc].ret :
+                          /\ UPair(t.edge[BlockStart(cc) + i]) = UPair(calls[cc].ret[i])
+                          /\ t.mid[BlockStart(cc) + i] = t.mid[BlockStart(cc) + 1]
+        fastDistinct == \A cc, d \in DOMAIN calls : (cc # d /\ calls[cc].ret # <<>> /\ calls[d].ret # <<>>)
+                                                       => t.mid[BlockStart(cc) + 1] # t.mid[BlockStart(d) + 1]
+        fastNames == \A cc \in DOMAIN calls : \A i \in DOMAIN calls[cc].ret : t.top[BlockStart(cc) + i] = NameAt(calls[cc].m, i)
+        fast == fastBlocks /\ fastDistinct /\ fastNames
+        (* general path, only evaluated when the layout is another one: the rows sharing an id, in row order, must be the
+           return of one call - as bags, so that any order of the motif instances in the columns is accepted *)
+        IdSet == SetOf(t.mid)
+        Idx(id) == SelectSeq([k \in 1..Len(t.mid) |-> k], LAMBDA k : t.mid[k] = id)
+        GE(id) == LET ix == Idx(id) IN [j \in DOMAIN ix |-> UPair(t.edge[ix[j]])]
+        GN(id) == LET ix == Idx(id) IN [j \in DOMAIN ix |-> <<UPair(t.edge[ix[j]]), t.top[ix[j]]>>]
+        CE(cc) == [i \in DOMAIN calls[cc].ret |-> UPair(calls[cc].ret[i])]
+        CN(cc) == [i \in DOMAIN calls[cc].ret |-> <<UPair(calls[cc].ret[i]), NameAt(calls[cc].m, i)>>]
+        ne == {cc \in DOMAIN calls : calls[cc].ret # <<>>}
+        bagEdgesOK == \A x \in {CE(cc) : cc \in ne} \cup {GE(id) : id \in IdSet} :
+                          Cardinality({cc \in ne : CE(cc) = x}) = Cardinality({id \in IdSet : GE(id) = x})
+        bagNamesOK == \A x \in {CN(cc) : cc \in ne} \cup {GN(id) : id \in IdSet} :
+                          Cardinality({cc \in ne : CN(cc) = x}) = Cardinality({id \in IdSet : GN(id) = x})
     IN
     IF t.raised # "" THEN {"raised"} ELSE
     {c \in clauses :
@@ -84,14 +106,9 @@ Failed(t) ==
          [] c = "parallel" -> t.has_cols /\ ~par
          [] c = "pairs" -> t.has_cols /\ \E i \in DOMAIN t.pair_ok : ~t.pair_ok[i]
          [] c = "edges_are_returned" -> t.has_cols /\ par /\ Len(t.edge) # total
-         [] c = "ids_blocks" -> t.has_cols /\ blocksOK /\ \E cc \in DOMAIN calls : \E i \in DOMAIN calls[cc].ret :
-                                   \/ t.edge[BlockStart(cc) + i] # calls[cc].ret[i]
-                                   \/ t.mid[BlockStart(cc) + i] # t.mid[BlockStart(cc) + 1]
-         [] c = "ids_distinct" -> t.has_cols /\ blocksOK /\ \E cc, d \in DOMAIN calls :
-                                   /\ cc # d /\ calls[cc].ret # <<>> /\ calls[d].ret # <<>>
-                                   /\ t.mid[BlockStart(cc) + 1] = t.mid[BlockStart(d) + 1]
-         [] c = "names" -> t.has_cols /\ blocksOK /\ \E cc \in DOMAIN calls : \E i \in DOMAIN calls[cc].ret :
-                                   t.top[BlockStart(cc) + i] # NameAt(calls[cc].m, i)}
+         [] c = "ids_blocks" -> t.has_cols /\ blocksOK /\ ~fast /\ ~bagEdgesOK
+         [] c = "ids_distinct" -> t.has_cols /\ blocksOK /\ ~fast /\ Cardinality(IdSet) < Cardinality(ne)
+         [] c = "names" -> t.has_cols /\ blocksOK /\ ~fast /\ bagEdgesOK /\ ~bagNamesOK}
 
 Verdict(t) == LET f == Failed(t) IN
               IF f = {} THEN "ok" ELSE "violation:" \o (CHOOSE c \in f : TRUE)
